@@ -88,6 +88,9 @@ pub enum Case {
     CustomError { code: i16, msg: Vec<u8>, ext: Option<Vec<u8>> },
     StdErrorExt { code: i16, ext: Vec<u8> },
     Enum(u8),
+    /// unit quantity (formats as its stored value), AUTO, SYSTem:VERSion
+    Quantity { single: bool, bits: u64, which: u8 },
+    Misc(u8),
 }
 
 pub fn fmt<T: ResponseData>(v: &T) -> Result<Vec<u8>, Error> {
@@ -520,6 +523,56 @@ pub fn check(case: &Case, obs: &Obs) -> CheckResult {
             check_error(e, obs, case)
         }
         Case::Enum(i) => check_enum(*i, obs, case),
+        Case::Quantity { single, bits, which } => {
+            use scpi::units::uom::si::{f32 as q32, f64 as q64};
+            obs.label("unit quantity");
+            obs.nontrivial(case);
+            if *single {
+                let x = f32::from_bits(*bits as u32);
+                let own = fmt(&x);
+                let got = match which % 4 {
+                    0 => fmt(&q32::ElectricPotential::new::<scpi::units::uom::si::electric_potential::volt>(x)),
+                    1 => fmt(&q32::Time::new::<scpi::units::uom::si::time::second>(x)),
+                    2 => fmt(&q32::Frequency::new::<scpi::units::uom::si::frequency::hertz>(x)),
+                    _ => fmt(&q32::Ratio::new::<scpi::units::uom::si::ratio::ratio>(x)),
+                };
+                ensure!(got == own, "quantity-text", "quantity of {x:e} formatted as {got:?}, its value alone as {own:?}");
+                check_f32(*bits as u32, obs)
+            } else {
+                let x = f64::from_bits(*bits);
+                let own = fmt(&x);
+                let got = match which % 3 {
+                    0 => fmt(&q64::ElectricPotential::new::<scpi::units::uom::si::electric_potential::volt>(x)),
+                    1 => fmt(&q64::Time::new::<scpi::units::uom::si::time::second>(x)),
+                    _ => fmt(&q64::Energy::new::<scpi::units::uom::si::energy::joule>(x)),
+                };
+                ensure!(got == own, "quantity-text", "quantity of {x:e} formatted as {got:?}, its value alone as {own:?}");
+                check_f64(*bits, obs)
+            }
+        }
+        Case::Misc(k) => {
+            use scpi_contrib::scpi1999::util::Auto;
+            obs.label("AUTO / version");
+            let (got, want): (Result<Vec<u8>, Error>, &[u8]) = match k % 4 {
+                0 => (fmt(&Auto::Once), b"ONCE"),
+                1 => (fmt(&Auto::Bool(true)), b"1"),
+                2 => (fmt(&Auto::Bool(false)), b"0"),
+                _ => (fmt(&&scpi_contrib::scpi1999::system::SystVersionCommand::new(1999, 0)), b"1999.0"),
+            };
+            ensure!(got.as_deref() == Ok(want), "misc-text", "formatted as {got:?}, expected {:?}", String::from_utf8_lossy(want));
+            if k % 4 < 3 {
+                // AUTO round trip
+                let back = lex_single(want).map(Auto::try_from);
+                let ok = match (k % 4, back) {
+                    (0, Some(Ok(Auto::Once))) => true,
+                    (1, Some(Ok(Auto::Bool(true)))) => true,
+                    (2, Some(Ok(Auto::Bool(false)))) => true,
+                    _ => false,
+                };
+                ensure!(ok, "misc-roundtrip", "AUTO value {k} does not parse back from {:?}", String::from_utf8_lossy(want));
+            }
+            Ok(())
+        }
     }
 }
 
@@ -612,6 +665,8 @@ fn case_strategy() -> impl Strategy<Value = Case> {
         6 => (any::<i16>(), text7(), proptest::option::of(text7())).prop_map(|(code, msg, ext)| Case::CustomError { code, msg, ext }),
         2 => ((-899i16..=0), text7()).prop_map(|(code, ext)| Case::StdErrorExt { code, ext }),
         2 => (0u8..9).prop_map(Case::Enum),
+        3 => (any::<bool>(), f64_bits(), any::<u8>()).prop_map(|(single, bits, which)| Case::Quantity { single, bits: if single { (f64::from_bits(bits) as f32).to_bits() as u64 } else { bits }, which }),
+        1 => (0u8..4).prop_map(Case::Misc),
     ]
 }
 
